@@ -95,13 +95,42 @@ def rule_R06_1(ctx):
                     none_t = info["otherwise"]
                 if some_t is None:
                     some_t = info["otherwise"]
+            merged = False
+            if some_t is None:
+                # the Option may be stored in a local that several arms assign
+                # and matched once, after the arms join
+                tl = ops.forward_taint(f, c)
+                sws = []
+                for b2 in f.reachable():
+                    if f.is_cleanup(b2) or f.term(b2)["k"] != "switch":
+                        continue
+                    i2 = f.switch_info(b2)
+                    if i2 and i2["kind"] == "discr" and i2["enum"].startswith("std::option::Option<") \
+                            and i2["place"][0] in tl and b2 in f.reach_from(c.bb):
+                        sws.append(i2)
+                if len(sws) == 1:
+                    info = sws[0]
+                    merged = True
+                    for n, tgt in info["cases"]:
+                        if n == "Some":
+                            some_t = tgt
+                        if n == "None":
+                            none_t = tgt
+                    if none_t is None:
+                        none_t = info["otherwise"]
+                    if some_t is None:
+                        some_t = info["otherwise"]
             if some_t is None:
                 r.fail(key + " result-not-matched",
                        "the Option returned by %s is not matched on" % names[0],
                        where=c.loc)
                 continue
-            some_r = f.reach_from(some_t) & ex
-            none_r = f.reach_from(none_t) & ex
+            if merged:
+                some_r = f.reach_from(some_t, avoid=[none_t])
+                none_r = f.reach_from(none_t, avoid=[some_t])
+            else:
+                some_r = f.reach_from(some_t) & ex
+                none_r = f.reach_from(none_t) & ex
             ok_val = False
             for bb in some_r:
                 for s in f.stmts(bb):
@@ -109,6 +138,9 @@ def rule_R06_1(ctx):
                             and s[2][1]["adt"] == VALUE and s[2][1]["variant"] == "Int":
                         src = f.canon_op(s[2][2][0])
                         if src == (("call", c.bb), ("d", "Some"), ("f", 0)):
+                            ok_val = True
+                        if merged and src[0] == ("local", info["place"][0]) \
+                                and tuple(src[1:]) == (("d", "Some"), ("f", 0)):
                             ok_val = True
             if ok_val:
                 r.ok()
@@ -166,8 +198,31 @@ def rule_R06_1(ctx):
             _, zero_t, nz_t = guard
             zr = f.reach_from(zero_t, avoid=[nz_t]) & ex
             nr = f.reach_from(nz_t, avoid=[zero_t]) & ex
+            direct = any(_constructs_overflow(prog, f, bb) for bb in zr)
+            via_none = False
+            if not direct:
+                # the zero edge may answer `None` into an Option that is
+                # matched after the arms join, its None edge raising the error
+                nones, somes = set(), set()
+                for bb in zr:
+                    for s in f.stmts(bb):
+                        if s[0] == "=" and s[2][0] == "agg" and s[2][1].get("k") == "adt" \
+                                and s[2][1]["adt"] == "std::option::Option":
+                            (nones if s[2][1]["variant"] == "None" else somes).add(s[1][0])
+                tl = ops.forward_taint(f, seeds=nones) if nones and not somes else set()
+                for b2 in f.reach_from(zero_t, avoid=[nz_t]):
+                    if f.term(b2)["k"] != "switch":
+                        continue
+                    i2 = f.switch_info(b2)
+                    if i2 and i2["kind"] == "discr" and i2["enum"].startswith("std::option::Option<") \
+                            and i2["place"][0] in tl:
+                        nt = dict(i2["cases"]).get("None", i2["otherwise"])
+                        st = dict(i2["cases"]).get("Some", i2["otherwise"])
+                        if nt != st and any(_constructs_overflow(prog, f, bb)
+                                            for bb in f.reach_from(nt, avoid=[st])):
+                            via_none = True
             if c.bb in nr and c.bb not in zr \
-                    and any(_constructs_overflow(prog, f, bb) for bb in zr) \
+                    and (direct or via_none) \
                     and not any(_has_int_value(f, bb) for bb in zr):
                 r.ok()
             else:
@@ -219,6 +274,7 @@ def rule_R06_2(ctx):
                    "instead of an error")
     ot = optable(ctx)
     allowed_fn = ot[0].path if ot else None
+    allowed_members = getattr(ot[0], "members", {allowed_fn}) if ot else set()
     n = 0
     for f in prog.hand_fns():
         for c in f.calls():
@@ -229,7 +285,7 @@ def rule_R06_2(ctx):
                 n += 1
             if INEXACT.match(c.res or ""):
                 name = m.group(1)
-                if name == "wrapping_rem" and f.path == allowed_fn:
+                if name == "wrapping_rem" and f.path in allowed_members:
                     r.inst("%s: wrapping_rem (guard checked by R06.1)" % f.path)
                     r.ok()
                     continue
@@ -279,7 +335,8 @@ def rule_R06_3(ctx):
             continue
         for bb, i, pl, kd, aops, sp in g.aggregates(VALUE, "Int"):
             import anchors
-            okp = g.module.startswith(anchors.value_module(prog)) or g.root_fn().path == f.path
+            okp = g.module.startswith(anchors.value_module(prog)) \
+                or g.root_fn().path in getattr(f, "members", {f.path})
             r.inst("%s builds Value::Int" % g.path)
             if okp:
                 r.ok()
